@@ -128,21 +128,21 @@ def run_workers(cmds, timeout):
     procs = []
     sd = scratch_dir()
     for i, c in enumerate(cmds):
-        eo = open(os.path.join(sd, "w%d.%d.err" % (os.getpid(), i)), "w+")
-        oo = open(os.path.join(sd, "w%d.%d.out" % (os.getpid(), i)), "w+")
-        procs.append((subprocess.Popen(c, stdout=oo, stderr=eo, env=ENV, cwd=VERIF), oo, eo))
+        f1, n1 = tempfile.mkstemp(prefix="w.", suffix=".err", dir=sd)
+        f2, n2 = tempfile.mkstemp(prefix="w.", suffix=".out", dir=sd)
+        eo = os.fdopen(f1, "w+"); oo = os.fdopen(f2, "w+")
+        procs.append((subprocess.Popen(c, stdout=oo, stderr=eo, env=ENV, cwd=VERIF), oo, eo, n2, n1))
     out = []
     deadline = time.time() + timeout
-    for p, oo, eo in procs:
+    for p, oo, eo, on, en in procs:
         try:
             p.wait(timeout=max(1, deadline - time.time()))
         except subprocess.TimeoutExpired:
             p.kill(); p.wait()
         oo.seek(0); eo.seek(0)
         out.append((p.returncode, oo.read(), eo.read()))
-        n1, n2 = oo.name, eo.name
         oo.close(); eo.close()
-        os.unlink(n1); os.unlink(n2)
+        os.unlink(on); os.unlink(en)
     return out
 
 
